@@ -288,6 +288,10 @@ class Converter:
         graph = self._current_fn
         self._current_fn = self._outer.pop()
         self._locals.pop()
+        # The domains of the operators used inside the block must also be imported by the
+        # enclosing function: only its imports reach the FunctionProto/ModelProto.
+        for domain, version in graph.opset_imports.items():
+            self._current_fn.opset_imports.setdefault(domain, version)
         return graph
 
     def _current_scope(self) -> dict[str, LocalSymValue]:
